@@ -124,7 +124,12 @@ def load(val, import_custom_exceptions, instantiate_custom_exceptions, instantia
 
     if instantiate_custom_exceptions:
         if modname in sys.modules:
-            cls = getattr(sys.modules[modname], clsname, None)
+            # look the name up in the module's own namespace: `getattr()` would run a module-level `__getattr__`
+            # (PEP 562) with this peer-chosen name - module code, which may import (concurrent.futures loads its
+            # process-pool machinery this way) although import_custom_exceptions is off - and anything that is
+            # not a module has no business answering here
+            module = sys.modules[modname]
+            cls = vars(module).get(clsname) if isinstance(module, type(sys)) else None
         else:
             cls = None
     elif modname == exceptions_module.__name__:
